@@ -1238,8 +1238,10 @@ func (e *Exec) lockOrder(f *frame, st *State, ci calleeInfo, c *ssa.CallCommon, 
 	}
 	e.regHeap("G.$held", "(Array Int Bool)")
 	held := e.get(st, "G.$held")
+	e.regHeap("G.$rheld", "(Array Int Bool)")
+	rheld := e.get(st, "G.$rheld")
 	if ci.fn != nil && isLockAcquire(ci.fn.String()) && len(args) > 0 {
-		e.oblig(st, "lockorder", "acquire", eq(held, noLocks), "a lock is acquired only while no lock is held (no nesting)", e.position(ins.Pos()))
+		e.oblig(st, "lockorder", "acquire", and(eq(held, noLocks), eq(rheld, noLocks)), "a lock is acquired only while no lock is held (no nesting)", e.position(ins.Pos()))
 		return
 	}
 	if ci.kind == ckInline {
@@ -1247,7 +1249,7 @@ func (e *Exec) lockOrder(f *frame, st *State, ci calleeInfo, c *ssa.CallCommon, 
 	}
 	may, why := e.W.mayLockCall(e.P, f.fn, c)
 	if may {
-		e.oblig(st, "lockorder", "call("+ci.name+")", eq(held, noLocks), "a function that may acquire a lock ("+why+") is called only while no lock is held", e.position(ins.Pos()))
+		e.oblig(st, "lockorder", "call("+ci.name+")", and(eq(held, noLocks), eq(rheld, noLocks)), "a function that may acquire a lock ("+why+") is called only while no lock is held", e.position(ins.Pos()))
 	}
 }
 
